@@ -610,6 +610,10 @@ func runC03(c *core.Ctx) {
 		c.Floor("exchange sites on pooled connections", n, 28)
 	})
 
+	// the batch offered to each owner is the batch the client wrote: no owner goroutine passes the shared slice to a
+	// callee that stores into its elements (shared with C19 D11)
+	c.Clause("D8", func() { runSharedBatchNotMutated(c) })
+
 	c.Clause("D7", func() {
 		// The handoff path is keyed by two ids of one type (owner/node id, shard id) that travel through WriteShard,
 		// Empty, processor, setProcessor and the processors' constructors. A transposed pair addresses the queue of
